@@ -3,8 +3,8 @@
 
   Models: `OdfModel.Xhtml` (odf/odf2xhtml.py), `OdfModel.Moin` (odf/odf2moinmoin.py); helper lemmas in
   `OdfModel.XhtmlLemmas`.  Everything here is PARTIAL BY CONSTRUCTION: only the converters' supported vocabulary is
-  modelled (`Supported`), the style sheet text is an opaque parameter (`Cfg.cssText`), and the known findings
-  KF-C18-1 … are excluded by explicit hypotheses, each with a proved counter-example (`finding_*`).
+  modelled (`Supported`, `Block`/`Inline`), and the style sheet text is an opaque parameter (`Cfg.cssText`; the one remaining
+  known finding KF-C18-4 lives there).  The eight findings repaired in /repo (a71a4f0 … 41ddec8) are no longer excluded.
 -/
 import OdfModel.XhtmlLemmas
 import OdfModel.XhtmlText
@@ -143,7 +143,7 @@ def BodyH (hs he : HName) : Prop :=
 /-- **the quantifier of C18 as far as it is modelled**: a loaded document
       office:document [ meta / settings / styles …,  office:body [ office:text | spreadsheet | presentation [ running text ] ] ]
     whose head part only meets handlers that write nothing (`Head`), and whose body is running text of the supported
-    vocabulary (`Flow`: paragraphs, headings WITH a decimal outline level, spans, links with a target, lists, tables,
+    vocabulary (`Flow`: paragraphs, headings (outline level absent or decimal), spans, links with a target, lists, tables,
     frames, text boxes, images, notes of the shape citation+body outside other notes, s/tab/line-break, bookmarks,
     elements without handler such as sections, ignored elements). -/
 inductive Supported : Node → Prop
@@ -276,8 +276,7 @@ theorem doc_start (cfg : Cfg) (ctx : Ctx) (q : Str) (a : Attrs) (pe pc : Bool) :
 /-- **C18 (total, balanced) — partial**: for every supported document (see `Supported`) and both settings of
     generate_css, whatever the opaque style sheet text is, the conversion raises no exception and the token sequence it
     writes is a Dyck word: every start handler's tag is closed by the matching end handler, properly nested, foot notes
-    included.  Outside the statement: unsupported vocabulary, and the classes of the known findings (a heading without
-    outline level is not `Supported`: `finding_heading_without_level`). -/
+    included.  Outside the statement: unsupported vocabulary. -/
 theorem total_balanced_partial (cfg : Cfg) (doc : Node) (h : Supported doc) :
     ∃ toks, convert cfg doc = .ok toks ∧ Dyck toks := by
   cases h with
@@ -382,13 +381,9 @@ theorem walk_body_txt (cfg : Cfg) (ctx : Ctx) (st : St) (qt : Str) (at_ : Attrs)
   · simp [ht3, tokText]
     exact List.Sublist.append hmain hnotes
 
-/-- **C18 (complete) — partial**: for a supported document whose running text is `Txt` (no handler purges the pending
-    character data while visible text is pending — the class of finding KF-C18-2 is exactly what `Txt` excludes; see
-    `finding_pending_before_textbox`), the conversion succeeds and the document's visible text — paragraphs, headings, list
-    items, table cells, links, text boxes in document order, then the foot note bodies in document order — is a subsequence
-    of the text tokens of the output, CHARACTER FOR CHARACTER (no white space normalisation is needed for XHTML).
-    `List.Sublist (nonWs v) (nonWs t)` of the design follows by filtering both sides (`complete_nonWs_partial`). -/
-theorem complete_partial (cfg : Cfg) (qd : Str) (ad : Attrs) (pre : List Node) (qb : Str) (ab : Attrs) (qt : Str) (at_ : Attrs)
+/-- completeness for running text in the cleanliness judgement `Txt` (the general form; `complete_partial` below is the
+    statement for documents that follow the ODF content model) -/
+theorem complete_txt (cfg : Cfg) (qd : Str) (ad : Attrs) (pre : List Node) (qb : Str) (ab : Attrs) (qt : Str) (at_ : Attrs)
     (blocks : List Node) (hs he : HName)
     (hdd : dispatch qd = (some .s_office_document_content, some .e_office_document_content))
     (hpre : HeadL [(qd, ad)] pre) (hdb : dispatch qb = (none, none)) (hdt : dispatch qt = (some hs, some he))
@@ -408,21 +403,6 @@ theorem complete_partial (cfg : Cfg) (qd : Str) (ad : Attrs) (pre : List Node) (
     simp only [startEl, endEl, hdb, walkList, h3, if_true, runH, closetag_ok _ _ _ hdep3, Except.map]
   · simpa [tokText] using hsub
 
-/-- Python's `str.isspace`, as in `Moin.isSpace`; dropping white space on both sides keeps the subsequence -/
-def nonWs (s : Str) : Str := s.filter (fun c => !Moin.isSpace c)
-
-/-- **C18 (complete), in the form of the design — partial**: `Sublist (nonWs (visibleText t)) (nonWs (textOf (convert t)))` -/
-theorem complete_nonWs_partial (cfg : Cfg) (qd : Str) (ad : Attrs) (pre : List Node) (qb : Str) (ab : Attrs) (qt : Str) (at_ : Attrs)
-    (blocks : List Node) (hs he : HName)
-    (hdd : dispatch qd = (some .s_office_document_content, some .e_office_document_content))
-    (hpre : HeadL [(qd, ad)] pre) (hdb : dispatch qb = (none, none)) (hdt : dispatch qt = (some hs, some he))
-    (hbody : BodyH hs he) (ht : TxtL false true true blocks) :
-    ∃ toks, convert cfg (.elem qd ad (pre ++ [.elem qb ab [.elem qt at_ blocks]])) = .ok toks ∧
-      (nonWs (visMainL blocks ++ visNotesL blocks)).Sublist (nonWs (textOf toks)) := by
-  obtain ⟨toks, h1, h2⟩ := complete_partial cfg qd ad pre qb ab qt at_ blocks hs he hdd hpre hdb hdt hbody ht
-  exact ⟨toks, h1, h2.filter _⟩
-
-
 /-! ### the vocabulary in the cleanliness judgement `Txt` (b = inside a note body; c, c' = clean before / after) -/
 
 theorem txt_p (b c2 : Bool) (a : Attrs) (kids : List Node) (h : TxtL b true c2 kids) : Txt b true true (.elem qP a kids) :=
@@ -435,6 +415,9 @@ theorem txt_span (b c c2 : Bool) (a : Attrs) (kids : List Node) (h : TxtL b true
 theorem txt_a (b c c2 : Bool) (a : Attrs) (kids : List Node) (v : Str) (hv : a.lookup kHref = some v) (h : TxtL b true c2 kids) :
     Txt b c true (.elem qA a kids) :=
   .bracket b c true c2 true qA a kids _ _ .flush .flush (disp (by decide)) (.link a v hv) rfl rfl rfl h rfl
+theorem txt_bookmark_ref (b c c2 : Bool) (a : Attrs) (kids : List Node) (v : Str) (hv : a.lookup kRefName = some v)
+    (h : TxtL b true c2 kids) : Txt b c true (.elem qBookmarkRef a kids) :=
+  .bracket b c true c2 true qBookmarkRef a kids _ _ .flush .flush (disp (by decide)) (.bmref a v hv) rfl rfl rfl h rfl
 theorem txt_list (b c2 : Bool) (a : Attrs) (kids : List Node) (h : TxtL b true c2 kids) : Txt b true true (.elem qList a kids) :=
   .bracket b true true c2 true qList a kids _ _ .purge .flush (disp (by decide)) (.list a) rfl rfl ⟨rfl, rfl⟩ h rfl
 theorem txt_list_item (b c2 : Bool) (a : Attrs) (kids : List Node) (h : TxtL b true c2 kids) :
@@ -446,22 +429,32 @@ theorem txt_row (b c2 : Bool) (a : Attrs) (kids : List Node) (h : TxtL b true c2
   .bracket b true true c2 true qRow a kids _ _ .purge .flush (disp (by decide)) (.row a) rfl rfl ⟨rfl, rfl⟩ h rfl
 theorem txt_cell (b c2 : Bool) (a : Attrs) (kids : List Node) (h : TxtL b true c2 kids) : Txt b true true (.elem qCell a kids) :=
   .bracket b true true c2 true qCell a kids _ _ .purge .flush (disp (by decide)) (.cell a) rfl rfl ⟨rfl, rfl⟩ h rfl
-/-- a frame / text box neither writes nor purges: it is as clean as its content leaves it — and its content must cope
-    with what is pending before the frame -/
-theorem txt_frame (b c c' : Bool) (a : Attrs) (kids : List Node) (h : TxtL b c c' kids) : Txt b c c' (.elem qFrame a kids) :=
-  .bracket b c c c' c' qFrame a kids _ _ .keep .keep (disp (by decide)) (.frame a) rfl rfl rfl h rfl
+/-- a frame writes the pending text before it opens (repair 29b6eef): whatever is pending, its content starts clean -/
+theorem txt_frame (b c c' : Bool) (a : Attrs) (kids : List Node) (h : TxtL b true c' kids) : Txt b c c' (.elem qFrame a kids) :=
+  .bracket b c true c' c' qFrame a kids _ _ .flush .keep (disp (by decide)) (.frame a) rfl rfl rfl h rfl
 theorem txt_text_box (b c c' : Bool) (a : Attrs) (kids : List Node) (h : TxtL b c c' kids) : Txt b c c' (.elem qTextBox a kids) :=
   .bracket b c c c' c' qTextBox a kids _ _ .keep .keep (disp (by decide)) (.textbox a) rfl rfl rfl h rfl
+theorem txt_page (b c c' : Bool) (a : Attrs) (kids : List Node) (h : TxtL b c c' kids) : Txt b c c' (.elem qPage a kids) :=
+  .bracket b c c c' c' qPage a kids _ _ .keep .keep (disp (by decide)) (.page a) rfl rfl rfl h rfl
 theorem txt_image (b c : Bool) (a : Attrs) (v : Str) (hv : a.lookup kHref = some v) : Txt b c c (.elem qImage a []) :=
   .leaf b c c c qImage a [] _ .keep (disp (by decide)) (.image a v hv) rfl rfl (.nil b c)
-theorem txt_s (b c : Bool) (a : Attrs) (n : Nat) (hn : pyInt ((a.lookup kC).getD sOne) = some n) : Txt b c c (.elem qS a []) :=
-  .leaf b c c c qS a [] _ .keep (disp (by decide)) (.s a n hn) rfl rfl (.nil b c)
+theorem txt_column (b : Bool) (a : Attrs) (n : Nat) (hn : pyInt ((a.lookup kColsRepeated).getD sOne) = some n) :
+    Txt b true true (.elem qColumn a []) :=
+  .leaf b true true true qColumn a [] _ .purge (disp (by decide)) (.column a n hn) rfl ⟨rfl, rfl⟩ (.nil b true)
+/-- text:s writes the pending text first (repair ff3c76c) -/
+theorem txt_s (b c : Bool) (a : Attrs) (n : Nat) (hn : pyInt ((a.lookup kC).getD sOne) = some n) : Txt b c true (.elem qS a []) :=
+  .leaf b c true true qS a [] _ .flush (disp (by decide)) (.s a n hn) rfl rfl (.nil b true)
 theorem txt_tab (b c : Bool) (a : Attrs) : Txt b c true (.elem qTab a []) :=
   .leaf b c true true qTab a [] _ .flush (disp (by decide)) (.tab a) rfl rfl (.nil b true)
 theorem txt_line_break (b c : Bool) (a : Attrs) : Txt b c true (.elem qLineBreak a []) :=
   .leaf b c true true qLineBreak a [] _ .flush (disp (by decide)) (.br a) rfl rfl (.nil b true)
 theorem txt_bookmark (b c : Bool) (a : Attrs) (v : Str) (hv : a.lookup kName = some v) : Txt b c true (.elem qBookmark a []) :=
   .leaf b c true true qBookmark a [] _ .flush (disp (by decide)) (.bookmark a v hv) rfl rfl (.nil b true)
+theorem txt_bookmark_start (b c : Bool) (a : Attrs) (v : Str) (hv : a.lookup kName = some v) :
+    Txt b c true (.elem qBookmarkStart a []) :=
+  .leaf b c true true qBookmarkStart a [] _ .flush (disp (by decide)) (.bookmark a v hv) rfl rfl (.nil b true)
+theorem txt_bookmark_end (b c : Bool) (a : Attrs) : Txt b c c (.elem qBookmarkEnd a []) :=
+  .transparent b c c qBookmarkEnd a [] (disp (by decide)) (.nil b c)
 theorem txt_section (b c c' : Bool) (a : Attrs) (kids : List Node) (h : TxtL b c c' kids) : Txt b c c' (.elem qSection a kids) :=
   .transparent b c c' qSection a kids (disp (by decide)) h
 theorem txt_covered (b c : Bool) (a : Attrs) (kids : List Node) : Txt b c c (.elem qCovered a kids) :=
@@ -470,91 +463,230 @@ theorem txt_note (c : Bool) (a ac ab : Attrs) (label : List Str) (kids : List No
     Txt false c true (.elem qNote a [.elem qCitation ac (label.map Node.text), .elem qNoteBody ab kids]) :=
   .note c qNote a qCitation ac label qNoteBody ab kids (disp (by decide)) (disp (by decide)) (disp (by decide)) h
 
-/-- the hypotheses of `complete_partial` are satisfiable:
-    <p>a<span>b</span><s/>, a foot note, <frame><text-box><p>e</p></text-box></frame>g</p> <list><item><p>d</p></item></list>
-    (the frame follows a note, i.e. a flush: nothing is pending there) -/
-example : TxtL false true true
-    [.elem qP [] [.text [97], .elem qSpan [] [.text [98]], .elem qS [] [],
-                  .elem qNote [] [.elem qCitation [] [.text [49]], .elem qNoteBody [] [.elem qP [] [.text [102]]]],
-                  .elem qFrame [] [.elem qTextBox [] [.elem qP [] [.text [101]]]], .text [103]],
-     .elem qList [] [.elem qListItem [] [.elem qP [] [.text [100]]]]] := by
-  have one (b : Bool) (x : Cp) : TxtL b true false [.text [x]] := .cons _ _ _ _ _ _ (.text _ _ _) (.nil _ _)
-  have para (b : Bool) (x : Cp) : TxtL b true true [.elem qP [] [.text [x]]] :=
-    .cons _ _ true _ _ _ (txt_p _ false _ _ (one b x)) (.nil _ _)
-  have inl : TxtL false true false
-      [.text [97], .elem qSpan [] [.text [98]], .elem qS [] [],
-       .elem qNote [] [.elem qCitation [] [.text [49]], .elem qNoteBody [] [.elem qP [] [.text [102]]]],
-       .elem qFrame [] [.elem qTextBox [] [.elem qP [] [.text [101]]]], .text [103]] :=
-    .cons _ _ false _ _ _ (.text _ _ _) <|
-    .cons _ _ true _ _ _ (txt_span _ _ false _ _ (one _ 98)) <|
-    .cons _ _ true _ _ _ (txt_s _ _ _ 1 (by decide)) <|
-    .cons _ _ true _ _ _ (txt_note _ [] [] [] [[49]] _ (para true 102)) <|
-    .cons _ _ true _ _ _ (txt_frame _ _ _ _ _ (.cons _ _ true _ _ _ (txt_text_box _ _ _ _ _ (para false 101)) (.nil _ _))) <|
-    .cons _ _ false _ _ _ (.text _ _ _) (.nil _ _)
-  exact .cons _ _ true _ _ _ (txt_p _ false _ _ inl) <|
-    .cons _ _ true _ _ _ (txt_list _ true _ _ (.cons _ _ true _ _ _ (txt_list_item _ true _ _ (para false 100)) (.nil _ _))) (.nil _ _)
+/-! ### the ODF content model of the supported vocabulary -/
 
-/-! ## The known findings, as proved counter-examples on the model (replayed on the real code by harness/c18.py) -/
+mutual
+/-- `Block b n`: an element that stands where ODF allows no character data — a paragraph or heading (with paragraph
+    content), or an element-only container (list, list item, table, row, cell, section, text box, slide) whose children are
+    `Block` again, or a column / covered cell / image.  `b` = inside a note body. -/
+inductive Block : Bool → Node → Prop
+  | p (b a kids) : (∀ k ∈ kids, Inline b k) → Block b (.elem qP a kids)
+  | h (b a kids lvl) : headingLevel a = .ok lvl → (∀ k ∈ kids, Inline b k) → Block b (.elem qH a kids)
+  | list (b a kids) : (∀ k ∈ kids, Block b k) → Block b (.elem qList a kids)
+  | listItem (b a kids) : (∀ k ∈ kids, Block b k) → Block b (.elem qListItem a kids)
+  | table (b a kids) : (∀ k ∈ kids, Block b k) → Block b (.elem qTable a kids)
+  | row (b a kids) : (∀ k ∈ kids, Block b k) → Block b (.elem qRow a kids)
+  | cell (b a kids) : (∀ k ∈ kids, Block b k) → Block b (.elem qCell a kids)
+  | sect (b a kids) : (∀ k ∈ kids, Block b k) → Block b (.elem qSection a kids)
+  | textBox (b a kids) : (∀ k ∈ kids, Block b k) → Block b (.elem qTextBox a kids)
+  | page (b a kids) : (∀ k ∈ kids, Block b k) → Block b (.elem qPage a kids)
+  | frame (b a kids) : (∀ k ∈ kids, Block b k) → Block b (.elem qFrame a kids)
+  | column (b a n) : pyInt ((a.lookup kColsRepeated).getD sOne) = some n → Block b (.elem qColumn a [])
+  | covered (b a kids) : Block b (.elem qCovered a kids)
+  | image (b a v) : a.lookup kHref = some v → Block b (.elem qImage a [])
+/-- `Inline b n`: paragraph content — character data, spans, links, bookmark references, text:s / tab / line-break,
+    bookmarks, frames (with text boxes and images), and — outside note bodies — notes -/
+inductive Inline : Bool → Node → Prop
+  | text (b s) : Inline b (.text s)
+  | span (b a kids) : (∀ k ∈ kids, Inline b k) → Inline b (.elem qSpan a kids)
+  | link (b a kids v) : a.lookup kHref = some v → (∀ k ∈ kids, Inline b k) → Inline b (.elem qA a kids)
+  | bookmarkRef (b a kids v) : a.lookup kRefName = some v → (∀ k ∈ kids, Inline b k) → Inline b (.elem qBookmarkRef a kids)
+  | s (b a n) : pyInt ((a.lookup kC).getD sOne) = some n → Inline b (.elem qS a [])
+  | tab (b a) : Inline b (.elem qTab a [])
+  | lineBreak (b a) : Inline b (.elem qLineBreak a [])
+  | bookmark (b a v) : a.lookup kName = some v → Inline b (.elem qBookmark a [])
+  | bookmarkStart (b a v) : a.lookup kName = some v → Inline b (.elem qBookmarkStart a [])
+  | bookmarkEnd (b a) : Inline b (.elem qBookmarkEnd a [])
+  | frame (b a kids) : (∀ k ∈ kids, Block b k) → Inline b (.elem qFrame a kids)
+  | note (a ac ab) (label : List Str) (kids) : (∀ k ∈ kids, Block true k) →
+      Inline false (.elem qNote a [.elem qCitation ac (label.map Node.text), .elem qNoteBody ab kids])
+end
 
-/-- **KF-C18-1**: a heading without text:outline-level makes the conversion raise KeyError (both settings of generate_css) -/
-theorem finding_heading_without_level (css : Bool) (cssText : Str) :
-    convert ⟨css, cssText⟩ (textDoc [.elem qH [] [.text [97]]]) = .error .keyError := by
-  cases css <;> cases cssText <;> rfl
+theorem txtL_of_blocks (b : Bool) (l : List Node) (h : ∀ k ∈ l, Txt b true true k) : TxtL b true true l := by
+  induction l with
+  | nil => exact .nil _ _
+  | cons n ns ih => exact .cons _ _ true _ _ _ (h n (by simp)) (ih (fun k hk => h k (by simp [hk])))
 
-/-- **KF-C18-2**: `<p>a<frame><text-box><p>b</p></text-box></frame>c</p>`: the "a" never reaches the output -/
-theorem finding_pending_before_textbox :
-    ∃ toks, convert ⟨false, []⟩ (textDoc [.elem qP [] [.text [97],
-        .elem qFrame [] [.elem qTextBox [] [.elem qP [] [.text [98]]]], .text [99]]]) = .ok toks ∧
-      textOf toks = [98, 99] ∧ ¬ List.Sublist [97, 98, 99] (textOf toks) :=
-  ⟨_, rfl, rfl, by decide⟩
+theorem txtL_of_inlines (b : Bool) (l : List Node) (h : ∀ k ∈ l, ∀ c, ∃ c', Txt b c c' k) : ∀ c, ∃ c', TxtL b c c' l := by
+  induction l with
+  | nil => exact fun c => ⟨c, .nil _ _⟩
+  | cons n ns ih =>
+    intro c
+    obtain ⟨c1, h1⟩ := h n (by simp) c
+    obtain ⟨c2, h2⟩ := ih (fun k hk => h k (by simp [hk])) c1
+    exact ⟨c2, .cons _ _ c1 _ _ _ h1 h2⟩
 
-/-- **KF-C18-3**: `<p>a<s/>b</p>`: the non-breaking space is written before the pending "a", the words are joined -/
-theorem finding_space_before_pending_text :
-    convert ⟨false, []⟩ (textDoc [.elem qP [] [.text [97], .elem qS [] [], .text [98]]]) =
-      .ok (docStart ++ [.ctag nHead true, .otag nBody [] true, .otag nP [] false, .raw .nbsp, .text [97, 98], .ctag nP true,
-                        .ctag nBody true, .ctag nHtml true]) := by
-  rfl
+theorem mem_sizeOf_lt {q : Str} {a : Attrs} {kids : List Node} {k : Node} (hk : k ∈ kids) :
+    sizeOf k < sizeOf (Node.elem q a kids) := by
+  have := List.sizeOf_lt_of_mem hk
+  simp only [Node.elem.sizeOf_spec]; omega
 
+mutual
+/-- an element of the content model never purges pending visible text: it starts clean and ends clean -/
+theorem block_txt (n : Node) (b : Bool) (h : Block b n) : Txt b true true n := by
+  cases h with
+  | p _ a kids hk =>
+    obtain ⟨c2, h2⟩ := txtL_of_inlines b kids (fun k hm c => inline_txt k b c (hk k hm)) true
+    exact txt_p b c2 a kids h2
+  | h _ a kids lvl hl hk =>
+    obtain ⟨c2, h2⟩ := txtL_of_inlines b kids (fun k hm c => inline_txt k b c (hk k hm)) true
+    exact txt_h b c2 a kids lvl hl h2
+  | list _ a kids hk => exact txt_list b true a kids (txtL_of_blocks b kids (fun k hm => block_txt k b (hk k hm)))
+  | listItem _ a kids hk => exact txt_list_item b true a kids (txtL_of_blocks b kids (fun k hm => block_txt k b (hk k hm)))
+  | table _ a kids hk => exact txt_table b true a kids (txtL_of_blocks b kids (fun k hm => block_txt k b (hk k hm)))
+  | row _ a kids hk => exact txt_row b true a kids (txtL_of_blocks b kids (fun k hm => block_txt k b (hk k hm)))
+  | cell _ a kids hk => exact txt_cell b true a kids (txtL_of_blocks b kids (fun k hm => block_txt k b (hk k hm)))
+  | sect _ a kids hk => exact txt_section b true true a kids (txtL_of_blocks b kids (fun k hm => block_txt k b (hk k hm)))
+  | textBox _ a kids hk => exact txt_text_box b true true a kids (txtL_of_blocks b kids (fun k hm => block_txt k b (hk k hm)))
+  | page _ a kids hk => exact txt_page b true true a kids (txtL_of_blocks b kids (fun k hm => block_txt k b (hk k hm)))
+  | frame _ a kids hk => exact txt_frame b true true a kids (txtL_of_blocks b kids (fun k hm => block_txt k b (hk k hm)))
+  | column _ a n hn => exact txt_column b a n hn
+  | covered _ a kids => exact txt_covered b true a kids
+  | image _ a v hv => exact txt_image b true a v hv
+termination_by sizeOf n
+decreasing_by all_goals exact mem_sizeOf_lt hm
+/-- paragraph content copes with pending text (every handler writes it before it purges) -/
+theorem inline_txt (n : Node) (b c : Bool) (h : Inline b n) : ∃ c', Txt b c c' n := by
+  cases h with
+  | text _ s => exact ⟨false, .text _ _ _⟩
+  | span _ a kids hk =>
+    obtain ⟨c2, h2⟩ := txtL_of_inlines b kids (fun k hm c => inline_txt k b c (hk k hm)) true
+    exact ⟨true, txt_span b c c2 a kids h2⟩
+  | link _ a kids v hv hk =>
+    obtain ⟨c2, h2⟩ := txtL_of_inlines b kids (fun k hm c => inline_txt k b c (hk k hm)) true
+    exact ⟨true, txt_a b c c2 a kids v hv h2⟩
+  | bookmarkRef _ a kids v hv hk =>
+    obtain ⟨c2, h2⟩ := txtL_of_inlines b kids (fun k hm c => inline_txt k b c (hk k hm)) true
+    exact ⟨true, txt_bookmark_ref b c c2 a kids v hv h2⟩
+  | s _ a n hn => exact ⟨true, txt_s b c a n hn⟩
+  | tab _ a => exact ⟨true, txt_tab b c a⟩
+  | lineBreak _ a => exact ⟨true, txt_line_break b c a⟩
+  | bookmark _ a v hv => exact ⟨true, txt_bookmark b c a v hv⟩
+  | bookmarkStart _ a v hv => exact ⟨true, txt_bookmark_start b c a v hv⟩
+  | bookmarkEnd _ a => exact ⟨c, txt_bookmark_end b c a⟩
+  | frame _ a kids hk => exact ⟨true, txt_frame b c true a kids (txtL_of_blocks b kids (fun k hm => block_txt k b (hk k hm)))⟩
+  | note a ac ab label kids hk =>
+    exact ⟨true, txt_note c a ac ab label kids (txtL_of_blocks true kids (fun k hm => block_txt k true (hk k hm)))⟩
+termination_by sizeOf n
+decreasing_by
+  all_goals first
+    | exact mem_sizeOf_lt hm
+    | (have := List.sizeOf_lt_of_mem hm; simp only [Node.elem.sizeOf_spec, List.cons.sizeOf_spec, List.nil.sizeOf_spec]; omega)
+end
 
-/-! ### MoinMoin: the findings on the model `OdfModel.Moin` -/
+/-! ### the headline statements -/
+
+/-- **C18 (complete) — partial**: for a document whose head only meets handlers that write nothing and whose body is built
+    from the supported vocabulary according to the ODF content model (`Block` / `Inline`: character data only in paragraph
+    content), the conversion succeeds and the document's visible text — paragraphs, headings, list items, table cells,
+    links, text boxes in document order, then the foot note bodies in document order — is a subsequence of the text tokens
+    of the output, CHARACTER FOR CHARACTER (no white space normalisation is needed for XHTML).  No finding is excluded any
+    more: since 29b6eef / ff3c76c every handler that discards `self.data` is only reached with nothing visible pending.
+    "partial" = the vocabulary (`Block`/`Inline`), and the style sheet text being a parameter. -/
+theorem complete_partial (cfg : Cfg) (qd : Str) (ad : Attrs) (pre : List Node) (qb : Str) (ab : Attrs) (qt : Str) (at_ : Attrs)
+    (blocks : List Node) (hs he : HName)
+    (hdd : dispatch qd = (some .s_office_document_content, some .e_office_document_content))
+    (hpre : HeadL [(qd, ad)] pre) (hdb : dispatch qb = (none, none)) (hdt : dispatch qt = (some hs, some he))
+    (hbody : BodyH hs he) (hb : ∀ k ∈ blocks, Block false k) :
+    ∃ toks, convert cfg (.elem qd ad (pre ++ [.elem qb ab [.elem qt at_ blocks]])) = .ok toks ∧
+      (visMainL blocks ++ visNotesL blocks).Sublist (textOf toks) :=
+  complete_txt cfg qd ad pre qb ab qt at_ blocks hs he hdd hpre hdb hdt hbody
+    (txtL_of_blocks false blocks (fun k hk => block_txt k false (hb k hk)))
+
+/-- Python's `str.isspace`, as in `Moin.isSpace`; dropping white space on both sides keeps the subsequence -/
+def nonWs (s : Str) : Str := s.filter (fun c => !Moin.isSpace c)
+
+/-- **C18 (complete), in the form of the design — partial**: `Sublist (nonWs (visibleText t)) (nonWs (textOf (convert t)))` -/
+theorem complete_nonWs_partial (cfg : Cfg) (qd : Str) (ad : Attrs) (pre : List Node) (qb : Str) (ab : Attrs) (qt : Str) (at_ : Attrs)
+    (blocks : List Node) (hs he : HName)
+    (hdd : dispatch qd = (some .s_office_document_content, some .e_office_document_content))
+    (hpre : HeadL [(qd, ad)] pre) (hdb : dispatch qb = (none, none)) (hdt : dispatch qt = (some hs, some he))
+    (hbody : BodyH hs he) (hb : ∀ k ∈ blocks, Block false k) :
+    ∃ toks, convert cfg (.elem qd ad (pre ++ [.elem qb ab [.elem qt at_ blocks]])) = .ok toks ∧
+      (nonWs (visMainL blocks ++ visNotesL blocks)).Sublist (nonWs (textOf toks)) := by
+  obtain ⟨toks, h1, h2⟩ := complete_partial cfg qd ad pre qb ab qt at_ blocks hs he hdd hpre hdb hdt hbody hb
+  exact ⟨toks, h1, h2.filter _⟩
+
+/-- a document of the content model is `Supported`: `total_balanced_partial` applies to it -/
+theorem supported_of_content_model (qd : Str) (ad : Attrs) (pre : List Node) (qb : Str) (ab : Attrs) (qt : Str) (at_ : Attrs)
+    (blocks : List Node) (hs he : HName)
+    (hdd : dispatch qd = (some .s_office_document_content, some .e_office_document_content))
+    (hpre : HeadL [(qd, ad)] pre) (hdb : dispatch qb = (none, none)) (hdt : dispatch qt = (some hs, some he))
+    (hbody : BodyH hs he) (hb : ∀ k ∈ blocks, Block false k) :
+    Supported (.elem qd ad (pre ++ [.elem qb ab [.elem qt at_ blocks]])) :=
+  .mk qd ad pre qb ab qt at_ blocks hs he hdd hpre hdb hdt hbody
+    (txtL_of_blocks false blocks (fun k hk => block_txt k false (hb k hk))).flow
+
+/-- the hypotheses are satisfiable — and the three repaired XHTML classes are inside them:
+    <h>h</h> (no outline level), <p>a<s/>b<frame><text-box><p>e</p></text-box></frame>g, a foot note</p>, a list -/
+example : ∀ k ∈ [Node.elem qH [] [.text [104]],
+     .elem qP [] [.text [97], .elem qS [] [], .text [98],
+                  .elem qFrame [] [.elem qTextBox [] [.elem qP [] [.text [101]]]], .text [103],
+                  .elem qNote [] [.elem qCitation [] [.text [49]], .elem qNoteBody [] [.elem qP [] [.text [102]]]]],
+     .elem qList [] [.elem qListItem [] [.elem qP [] [.text [100]]]]], Block false k := by
+  have para (b : Bool) (x : Cp) : Block b (.elem qP [] [.text [x]]) :=
+    .p _ _ _ (fun k hk => by rcases List.mem_singleton.mp hk with rfl; exact .text _ _)
+  intro k hk
+  simp only [List.mem_cons, List.not_mem_nil, or_false] at hk
+  rcases hk with rfl | rfl | rfl
+  · exact .h _ _ _ 1 rfl (fun k hk => by rcases List.mem_singleton.mp hk with rfl; exact .text _ _)
+  · refine .p _ _ _ (fun k hk => ?_)
+    simp only [List.mem_cons, List.not_mem_nil, or_false] at hk
+    rcases hk with rfl | rfl | rfl | rfl | rfl | rfl
+    · exact .text _ _
+    · exact .s _ _ 1 (by decide)
+    · exact .text _ _
+    · exact .frame _ _ _ (fun k hk => by
+        rcases List.mem_singleton.mp hk with rfl
+        exact .textBox _ _ _ (fun k hk => by rcases List.mem_singleton.mp hk with rfl; exact para _ _))
+    · exact .text _ _
+    · exact Inline.note [] [] [] [[49]] _ (fun k hk => by rcases List.mem_singleton.mp hk with rfl; exact para _ _)
+  · exact .list _ _ _ (fun k hk => by
+      rcases List.mem_singleton.mp hk with rfl
+      exact .listItem _ _ _ (fun k hk => by rcases List.mem_singleton.mp hk with rfl; exact para _ _))
+
+/-! ## The repaired classes on the model (formerly `finding_*`; the real code is checked by harness/c18.py on every run) -/
+
+/-- a71a4f0: a heading without text:outline-level is a level-1 heading -/
+example : (convert ⟨false, []⟩ (textDoc [.elem qH [] [.text [97]]])).toOption.map textOf = some [97] := by rfl
+
+/-- 29b6eef: `<p>a<frame><text-box><p>b</p></text-box></frame>c</p>` keeps the "a" -/
+example : (convert ⟨false, []⟩ (textDoc [.elem qP [] [.text [97],
+    .elem qFrame [] [.elem qTextBox [] [.elem qP [] [.text [98]]]], .text [99]]])).toOption.map textOf = some [97, 98, 99] := by rfl
+
+/-- ff3c76c: `<p>a<s/>b</p>` is written a, blank, b -/
+example : convert ⟨false, []⟩ (textDoc [.elem qP [] [.text [97], .elem qS [] [], .text [98]]]) =
+    .ok (docStart ++ [.ctag nHead true, .otag nBody [] true, .otag nP [] false, .text [97], .raw .nbsp, .text [98], .ctag nP true,
+                      .ctag nBody true, .ctag nHtml true]) := by rfl
+
+/-! ### MoinMoin -/
 
 /-- styles.xml without any style, and content.xml with the given children of office:text, as minidom shows them -/
 def moinStyles : Node := .elem [] [] []
 def moinContent (blocks : List Node) : Node := .elem [] [] [.elem Moin.tBody [] [.elem qText [] blocks]]
 
-/-- **KF-C18-5**: `<p>a<note><citation>1</citation><body><p>b</p><p>c</p></body></note></p>`: only the first paragraph of
-    the foot note is converted; the "c" is nowhere in the output -/
-theorem finding_moin_note_tail :
-    ∃ out, Moin.toString moinStyles (moinContent [.elem qP [] [.text [97], .elem qNote []
-        [.elem qCitation [] [.text [49]], .elem qNoteBody [] [.elem qP [] [.text [98]], .elem qP [] [.text [99]]]]]]) = .ok out ∧
-      98 ∈ out ∧ 99 ∉ out :=
-  ⟨_, rfl, by decide, by decide⟩
+/-- 41ddec8: both paragraphs of a foot note are converted -/
+example : (Moin.toString moinStyles (moinContent [.elem qP [] [.text [97], .elem qNote []
+    [.elem qCitation [] [.text [49]], .elem qNoteBody [] [.elem qP [] [.text [98]], .elem qP [] [.text [99]]]]]])).toOption.map
+      (fun out => (98 ∈ out ∧ 99 ∈ out : Bool)) = some true := by rfl
 
-/-- **KF-C18-6**: a table inside a table cell becomes ` {table:table} `; its text ("Z") is lost -/
-theorem finding_moin_nested_table :
-    ∃ out, Moin.toString moinStyles (moinContent [.elem qTable [] [.elem qRow [] [.elem qCell []
-        [.elem qTable [] [.elem qRow [] [.elem qCell [] [.elem qP [] [.text [90]]]]]]]]]) = .ok out ∧ 90 ∉ out :=
-  ⟨[10, 124, 124, 32, 123, 116, 97, 98, 108, 101, 58, 116, 97, 98, 108, 101, 125, 32, 124, 124, 10], rfl, by decide⟩
+/-- bc7fa87: a table inside a table cell, a section inside a section -/
+example : (Moin.toString moinStyles (moinContent [.elem qTable [] [.elem qRow [] [.elem qCell []
+    [.elem qTable [] [.elem qRow [] [.elem qCell [] [.elem qP [] [.text [90]]]]]]]]])).toOption.map (fun out => decide (90 ∈ out)) =
+      some true := by rfl
+example : (Moin.toString moinStyles (moinContent [.elem qSection [] [.elem qSection [] [.elem qP [] [.text [90]]]]])).toOption.map
+    (fun out => decide (90 ∈ out)) = some true := by rfl
 
-/-- **KF-C18-7**: a section inside a section becomes ` {text:section} `; its text ("Z") is lost -/
-theorem finding_moin_nested_section :
-    ∃ out, Moin.toString moinStyles (moinContent [.elem qSection [] [.elem qSection [] [.elem qP [] [.text [90]]]]]) = .ok out ∧
-      90 ∉ out :=
-  ⟨_, rfl, by decide⟩
-
-/-- **KF-C18-9**: `<p>a<span> </span>b</p>` comes out as "ab": inline_markup returns '' for white space -/
-theorem finding_moin_whitespace_inline :
-    Moin.toString moinStyles (moinContent [.elem qP [] [.text [97], .elem qSpan [] [.text [32]], .text [98]]]) =
-      .ok [97, 98, 10] := by
-  rfl
-
+/-- c4d21da: `<p>a<span> </span>b</p>` keeps the blank -/
+example : Moin.toString moinStyles (moinContent [.elem qP [] [.text [97], .elem qSpan [] [.text [32]], .text [98]]]) =
+    .ok [97, 32, 98, 10] := by rfl
 
 /-- the hypotheses of `Moin.moin_total_complete_partial` are satisfiable: `<p>a<span>b</span><s/></p><h outline-level="2">c</h>` -/
 example : ∃ out, Moin.toString moinStyles (moinContent
       [.elem qP [] [.text [97], .elem qSpan [] [.text [98]], .elem qS [] []], .elem qH [(Moin.kOutline, [50])] [.text [99]]]) = .ok out ∧
     (Moin.nonWs [97, 98, 99]).Sublist (Moin.nonWs out) := by
   have nb : ∀ q : Str, q = qSpan ∨ q = qS → Moin.notBlock q := by
-    intro q h; rcases h with rfl | rfl <;> (refine ⟨?_, ?_, ?_, ?_, ?_⟩ <;> decide)
+    intro q h; rcases h with rfl | rfl <;> (refine ⟨?_, ?_, ?_, ?_, ?_, ?_, ?_⟩ <;> decide)
   have hp : Moin.MPara (.elem qP [] [.text [97], .elem qSpan [] [.text [98]], .elem qS [] []]) :=
     .mk _ _ _ (Or.inl rfl) (Or.inl rfl)
       (.cons _ _ (.text _) (.cons _ _ (.markup qSpan [] _ (nb _ (Or.inl rfl)) (by decide) (.cons _ _ (.text _) .nil))
@@ -571,6 +703,5 @@ example : ∃ out, Moin.toString moinStyles (moinContent
       · cases hn
   exact Moin.moin_total_complete_partial moinStyles (moinContent _) {}
     (.elem Moin.tBody [] [.elem qText [] _]) [] (.elem qText [] _) [] _ rfl rfl rfl rfl hall
-
 
 end OdfModel.Props.C18
